@@ -37,10 +37,17 @@ Proof.
   intros [[sz stt hj] u] code.
   unfold gen_rec_write_header, rec_write_header, gen_notWritten, not_written, set_size, set_status.
   cbn [r_hij r_size r_status].
-  rewrite Z.geb_leb.
   destruct hj; [reflexivity|].
   destruct (sz =? -1); cbn [negb]; [|reflexivity].
-  destruct ((100 <=? code) && (code <=? 199) && negb (code =? 101)); reflexivity.
+  (* the informational guard, whatever comparison operators the Go text spells it with
+     (code <= 199 and code < 200 are the same test): decide every comparison, then both sides are closed terms *)
+  repeat match goal with
+  | |- context [Z.geb ?a ?b] => destruct (Z.geb_spec a b)
+  | |- context [Z.gtb ?a ?b] => destruct (Z.gtb_spec a b)
+  | |- context [Z.leb ?a ?b] => destruct (Z.leb_spec a b)
+  | |- context [Z.ltb ?a ?b] => destruct (Z.ltb_spec a b)
+  | |- context [Z.eqb ?a ?b] => destruct (Z.eqb_spec a b)
+  end; cbn [andb negb]; try reflexivity; lia.
 Qed.
 
 Lemma gen_rec_write_eq : forall P st buf, gen_rec_write P st buf = rec_write P st buf.
